@@ -41,7 +41,11 @@ type hprog struct {
 	TrailerEarly bool
 	EmptyWrite   bool // a zero-length Write before the first part
 	LateHeader   bool // after WriteHeader the handler still changes the header map (net/http ignores that)
-	Copy         bool // the body is handed over with io.Copy from a plain reader (optional writer interfaces get probed) instead of Write calls
+	// AfterBody: the handler never calls WriteHeader (the first write commits an implicit 200
+	// with the header as it stands then); after its last write it changes the header map and
+	// calls WriteHeader(500) - all of which net/http ignores
+	AfterBody bool
+	Copy      bool // the body is handed over with io.Copy from a plain reader (optional writer interfaces get probed) instead of Write calls
 }
 
 type progServer struct {
@@ -141,6 +145,12 @@ func (ps *progServer) base(w http.ResponseWriter, r *http.Request) {
 		if (p.FlushEach || p.FlushAfter == i+1) && fl != nil {
 			fl.Flush()
 		}
+	}
+	if p.AfterBody && len(p.Parts) > 0 {
+		w.Header().Set("Cache-Control", "no-store")
+		w.Header().Set("X-After", "1")
+		w.Header().Del("X-Prog")
+		w.WriteHeader(http.StatusInternalServerError)
 	}
 }
 
@@ -255,6 +265,7 @@ type c14Case struct {
 	Status2  int    // second, superfluous WriteHeader
 	Trailer  bool
 	TrEarly  bool   // the trailer value is set before the first write
+	After    bool   // header changes and a WriteHeader(500) after the body (implicit status)
 	Empty    bool   // zero-length first write
 	AskUp    bool   // the request asks for a protocol upgrade (which the handler / backend declines)
 	Copy     bool   // body via io.Copy
@@ -267,7 +278,7 @@ type c14Case struct {
 }
 
 func (c c14Case) String() string {
-	return fmt.Sprintf("L=%d pos=%s %s status=%d writes=%v flush=%s declare=%v interim=%d entity=%d status2=%d trailer=%v%s emptywrite=%v asks-upgrade=%v copy=%v ctype=%q abort=%v late-header=%v", c.L, c.Position, c.Method, c.Status, c.Comp, c.Flush, c.Declare, c.Interim, c.Entity, c.Status2, c.Trailer, map[bool]string{true: "(set before the first write)"}[c.TrEarly], c.Empty, c.AskUp, c.Copy, c.CType, c.Abort, c.Late)
+	return fmt.Sprintf("L=%d pos=%s %s status=%d writes=%v flush=%s declare=%v interim=%d entity=%d status2=%d trailer=%v%s emptywrite=%v asks-upgrade=%v copy=%v ctype=%q abort=%v late-header=%v%s", c.L, c.Position, c.Method, c.Status, c.Comp, c.Flush, c.Declare, c.Interim, c.Entity, c.Status2, c.Trailer, map[bool]string{true: "(set before the first write)"}[c.TrEarly], c.Empty, c.AskUp, c.Copy, c.CType, c.Abort, c.Late, map[bool]string{true: " header-changes-and-WriteHeader(500)-after-the-body"}[c.After])
 }
 
 func (c c14Case) prog() *hprog {
@@ -284,7 +295,7 @@ func (c c14Case) prog() *hprog {
 	}
 	return &hprog{Status: c.Status, Header: hd, Parts: partsOf(c.Comp, 5),
 		FlushFirst: c.Flush == "first", FlushEach: c.Flush == "each", DeclareLen: c.Declare, Interim: c.Interim, Status2: c.Status2, Trailer: c.Trailer, TrailerEarly: c.TrEarly, EmptyWrite: c.Empty,
-		FlushAfter: map[bool]int{true: 1}[c.Flush == "after-first"], Copy: c.Copy, AbortAfter: map[bool]int{true: 1}[c.Abort], LateHeader: c.Late}
+		FlushAfter: map[bool]int{true: 1}[c.Flush == "after-first"], Copy: c.Copy, AbortAfter: map[bool]int{true: 1}[c.Abort], LateHeader: c.Late, AfterBody: c.After}
 }
 
 func c14Total(comp []int) int {
@@ -540,6 +551,10 @@ func TestVerifC14(t *testing.T) {
 					}
 					for _, fl := range []string{"none", "first"} {
 						run(c14Case{L: L, Position: pos, Method: "GET", Status: st, Comp: comp, Flush: fl, Late: true})
+						// ... and after the body, with the status left implicit
+						if st == 200 {
+							run(c14Case{L: L, Position: pos, Method: "GET", Status: 0, Comp: comp, Flush: fl, After: true})
+						}
 					}
 				}
 			}
